@@ -267,7 +267,7 @@ theorem closure_shares_stmt (n : Nat) (σ : State) (sc : List Addr) (name : List
     evalStmt (n + 1) σ sc (.Func name nl args c ss) =
       (bindNextName n (σ.alloc (.func ⟨some name, args, c, ss, sc⟩)).2 sc [] name nl (SVal.plain (.func σ.heap.size)) none true).bind
         fun _ σ2 => .ok .none σ2 := by
-  rw [evalStmt]; simp only [hv]; rfl
+  rw [evalStmt]; simp only [validateArgsRes, hv, Res.bind]; rfl
 
 example : validateArgs 5 [Expr.mk (.Var c!"p") (1, 5)] [] = some none := by rfl
 
